@@ -83,11 +83,12 @@ def _rhe(n, m):
 
 
 class Decimal:
-    __slots__ = ("n", "k", "den", "lazy")
+    __slots__ = ("n", "k", "den", "lazy", "nr")
 
     def __init__(self, value="0", context=None):
         self.den = None
         self.lazy = None
+        self.nr = getattr(value, "nr", 0)  # number of arithmetic operations in the derivation (each may round at `prec` digits)
         if isinstance(value, Decimal):
             if value.n is None and value.lazy is None:
                 value._mat()
@@ -204,6 +205,12 @@ class Decimal:
         return self.n, self.den, self.k
 
     def _bin(self, o, op):
+        r = self._bin0(o, op)
+        if r is not NotImplemented:
+            r.nr = self.nr + getattr(o, "nr", 0) + 1
+        return r
+
+    def _bin0(self, o, op):
         if isinstance(o, float):
             if _CTX.traps.get(FloatOperation):
                 raise FloatOperation([FloatOperation])
@@ -538,6 +545,7 @@ class _QuotQ(Decimal):
     def __init__(self, n, d, kk, k):  # pylint: disable=super-init-not-called
         self.den = None
         self.lazy = None
+        self.nr = 0
         self.n = None
         self.k = k
         # value*10^k = n*10^k / (d*10^kk)
